@@ -473,7 +473,21 @@ std::string gen(Rng &r, const Args &a) {
           << " (aload 0 v2 a0 (lin 0 (" << e << " v1))) (aload 0 v3 a0 (lin " << 5 * e << "))";
       }
       break;
-    default: // loop-like: init, then widening of a store at a growing index, then loads
+    default:
+      if (!g.single[0] && (c1 & 1)) {
+        // (selected by the parity of c1, so that the other scenarios keep their random stream) a cell written
+        // BEFORE array_init, the init over cells that do not start at offset 0 (all cells known), then a symbolic
+        // store strictly beyond the recorded cells (not smashed when smash_at_nonzero_offset is off or the cells
+        // outnumber max_smashable_cells: the array must stop being "all cells known") and a symbolic load that
+        // covers recorded and unrecorded cells  [seeded change C14d]
+        int64_t n = r.range(2, 4);
+        o << " (astore 0 a0 (lin " << e << ") (lin " << c3 << ") 0) (ainit 0 a0 (lin " << e << ") (lin " << n * e + e - 1 << ") (lin " << c1 << "))"
+          << " (range 0 v1 " << n + 1 << " " << n + 2 << ") (astore 0 a0 (lin 0 (" << e << " v1)) (lin " << c2 << ") 0)"
+          << " (range 0 v1 1 " << n + 2 << ") (aload 0 v2 a0 (lin 0 (" << e << " v1)))";
+        if (r.coin()) o << " (copy 1 0) (astore 1 a0 (lin " << e << ") (lin " << c3 << ") 0) (join 0 0 1) (aload 0 v3 a0 (lin 0 (" << e << " v1)))";
+        break;
+      }
+      // loop-like: init, then widening of a store at a growing index, then loads
       if (!g.single[0])
         o << " (ainit 0 a0 (lin 0) (lin " << 6 * e - 1 << ") (lin " << c1 << ")) (assign 0 v0 (lin 0)) (copy 1 0)"
           << " (astore 1 a0 (lin 0 (" << e << " v0)) (lin " << c2 << ") 0) (assign 1 v0 (lin 1 (1 v0))) (widen 0 0 1) (assume 0 (le (lin -5 (1 v0))))"
